@@ -257,3 +257,12 @@ Definition agree (exact : bool) (impl : option (list Q)) (model : option (list l
   end.
 Definition ev_close (impl model : list Q * list Q * list Q) : bool :=
   let '(a, b, c) := impl in let '(x, y, z) := model in qclose_l a x && qclose_l b y && qclose_l c z.
+
+(** * in-place update of the target array after the tfreq setter ran (finding C05-tfreq-inplace-stale-flags)
+    The setters of the PAU / MOGS mixins derive the flags (tminor, thet, tmajor; tfreq_fix_minor/major/heter) from the targets
+    at the time of the assignment [tf_set] and store them; latentfn reads the flags for the availability term and the
+    CURRENT target array [tf_now] for the distance term.  As coded: *)
+Definition pau_stale (pl : Z) (G : list (list Z)) (w tf_set tf_now : list (list Q)) (p t : nat) (s : list nat) : list Q :=
+  pau_code pl G w tf_set p t s.
+Definition mogs_stale (pl : Z) (G : list (list Z)) (w tf_set tf_now : list (list Q)) (p t : nat) (s : list nat) : list Q :=
+  mogs_pau_code pl G w tf_set p t s ++ pafd pl G w tf_now p t s.
